@@ -491,7 +491,7 @@ class ExecBase:
             return self.loop_with_invariant(node, st, spec, kind="while")
         bound = spec.bounded if spec is not None and spec.bounded else None
         if bound is None:
-            raise Unsupported(f"while loop at line {node.lineno} has no loop contract")
+            return self.while_concrete(node, st)
         note_ix = len(self.bounded_loops)
         self.bounded_loops.append(f"while@{node.lineno} unrolled<= {bound}")
         out = []
@@ -519,6 +519,38 @@ class ExecBase:
         if not frontier:
             self.bounded_loops[note_ix] += " (every path left the loop within the bound: exact for the contract's concrete heap shape)"
         return out
+
+    def while_concrete(self, node, st, cap=64):
+        """a while loop without a contract is executed as is when every evaluation of its test
+        is decided by the path condition alone (e.g. a pointer walk over the concrete part of
+        the heap): no abstraction, no bound -- anything else needs a loop contract"""
+        out = []
+        frontier = [st]
+        for _ in range(cap):
+            nxt = []
+            for s0 in frontier:
+                for s, v in self.ev(node.test, s0):
+                    if isinstance(v, Raised):
+                        out.append((s, v))
+                        continue
+                    outcomes = self.branch(s, self.truth(s, v))
+                    if len(outcomes) != 1:
+                        raise Unsupported(f"while loop at line {node.lineno} has no loop contract")
+                    s2, t = outcomes[0]
+                    if not t:
+                        out.extend(self.exec_block(node.orelse, s2))
+                        continue
+                    for s3, o in self.exec_block(node.body, s2):
+                        if o is None or o is CONT:
+                            nxt.append(s3)
+                        elif o is BRK:
+                            out.append((s3, None))
+                        else:
+                            out.append((s3, o))
+            frontier = nxt
+            if not frontier:
+                return out
+        raise Unsupported(f"while loop at line {node.lineno} has no loop contract (not finished after {cap} concrete iterations)")
 
     def s_For(self, node, st):
         out = []
